@@ -61,6 +61,7 @@ class Report:
     rules: Dict[str, str] = field(default_factory=dict)
     extra: Dict[str, Any] = field(default_factory=dict)
     samples: List[Any] = field(default_factory=list)
+    undecided_list: List[Any] = field(default_factory=list)
 
     def rule(self, rid: str, text: str) -> None:
         self.rules[rid] = text
@@ -86,6 +87,10 @@ class Report:
                 return
         self.findings.append(f)
         self.obligations.append(Obligation(rule, site, what or key, False, True, message))
+
+    def undecided(self, rule: str, site: str, why: str) -> None:
+        """The rule cannot decide this construct (unrecognised idiom): exit 2 unless a violation is found."""
+        self.undecided_list.append((rule, site, why))
 
     def touched(self, *quals: str) -> None:
         self.functions_analysed.update(quals)
@@ -176,6 +181,9 @@ def finish(report: Report, model_stats: Dict[str, Any], t0: float, files: Dict[s
         loc = f"{f.file}:{f.line}" if f.file else f.site
         print(f"  rule={f.rule} at {loc} in {f.site} key={f.key}: {f.message}")
 
+    for rule, site, why in report.undecided_list:
+        print(f"ANALYSIS-ERROR property={prop} rule={rule} site={site}: {why}")
+
     nontrivial = {(o.rule, o.site, o.what) for o in report.obligations if o.nontrivial}
     samples = report.samples[:]
     for o in report.obligations[:: max(1, n_obl // 12)][:14]:
@@ -221,10 +229,10 @@ def finish(report: Report, model_stats: Dict[str, Any], t0: float, files: Dict[s
         "violations": len(violations),
     }
     if os.environ.get("JPSA_NO_EVIDENCE"):
-        return 1 if violations else 0
+        return 1 if violations else (2 if report.undecided_list else 0)
     EVIDENCE_DIR.mkdir(parents=True, exist_ok=True)
     tmp = EVIDENCE_DIR / f".{prop}.json.tmp"
     with open(tmp, "w", encoding="utf-8") as fd:
         json.dump(evidence, fd, indent=1, ensure_ascii=False)
     os.replace(tmp, EVIDENCE_DIR / f"{prop}.json")
-    return 1 if violations else 0
+    return 1 if violations else (2 if report.undecided_list else 0)
